@@ -68,8 +68,8 @@ impl OperationControl for BackReference {
             }
             Box::new(std::iter::once(position + l))
         } else {
-            // We don't know the backref yet
-            Box::new(std::iter::empty())
+            // a group that has not participated in the match is the empty string
+            Box::new(std::iter::once(position))
         }
     }
 }
